@@ -33,10 +33,6 @@ object not mentioned elsewhere in that expression).  `while (c) body` / `while (
 over an explicit fuel argument (cfg "fuel"), of type option: None = the fuel ran out (the caller then yields cfg["on_fuel"]).
 An `if` whose condition is, term for term, a test already decided on the path takes the decided branch (cfg "known_tests"); an `if`
 that gives a variable its first value in one branch only duplicates the rest of the path (cfg "partial_init": "dup").
-Also (added for the initial state: pxgstrf_relax_snode, ParallelInit, queue_init, EnqueueRelaxSnode): general `for` loops as while
-loops (cfg "general_for"; nested loops share the fuel), `a = b = e;` (cfg "chained_assign"), allocation calls as fresh lists
-`repeat fill (Z.to_nat len)` (cfg "alloc" / "ignore_alloc"), dropped statistics arrays (cfg "ignore_mem"), calls that never return
-(cfg "abort_calls" / "on_abort"), calls of separately translated C functions (cfg "fun_calls").
 Everything else stops the translation with an error (reported by the check as a broken translator), never silently skipped.
 The clang AST is built without -DSLU_MT_VERIF (CLANG_FLAGS): the SLU_VERIF_EV hook statements are null statements.
 
@@ -50,6 +46,17 @@ a condition becomes `negb (e =? 0)`; a bool used as an integer becomes `(if e th
 With cfg "dup_ifs" every `if` is translated by duplicating the rest of the path into both branches (no joins): the result is a
 decision tree whose leaves are the final values; locals declared or first assigned inside a branch need no value before the `if`.
 Expression types: 'Z' integer, 'B' bool, 'P' pointer (cptr), 'L' list Z (a declared memory array).
+Also (added for countnz / fixupL of util.c; tools/c2gal_wf.py, all in the methods wf_* below, switched on by new cfg keys):
+  cfg "ptr_assign": a pointer LOCAL that is given its value by a statement of the function's top level, `xsup = Glu->xsup;`, becomes a
+  declared pointer from there on (as `T *v = p->f;` does in a declaration); cfg "alloc_calls": `order = intMalloc(e);` at the top level
+  makes `order[]` a fresh list cell `allocZ e junk` (coq/C2GalWf.v: e entries with the arbitrary contents junk 0, junk 1, ..: junk is a
+  binder of the generated definition, the tie theorem quantifies over it); cfg "free_calls": `superlu_free(order)` ends its life (a
+  later access stops the translation); cfg "drop_vars": variables that only feed statistics (nnzL0, nnzsup) -- every assignment to one
+  is dropped, and since a dropped variable never has a value every read of it outside such an assignment stops the translation;
+  cfg "down_loops": `for (j = a; j >= b && c; j--) body` (also `j > b`, without `&& c`) becomes a BOUNDED ITERATION
+      fold_left (fun st _ => if <whole condition> then <body; j - 1> else st) (zrange b (a + 1)) (a, ..)
+  over the state (j, variables the body assigns): j falls by exactly one per round and the condition demands j >= b, so at most
+  a + 1 - b rounds run; once the condition is false the state no longer changes.  Total, no fuel; j has its final value afterwards.
 """
 import json, subprocess, sys, os
 
@@ -65,6 +72,7 @@ using where with Definition Lemma Theorem Fixpoint Inductive Record Section End 
 Z nat bool unit tt true false None Some pair fst snd negb andb orb cptr pnull pbase padd paddr peqb fold_left zrange
 nthZ updZ list option fuel fuel_ st_ O S""".split())
 
+GALLINA_RESERVED |= {"it_", "allocZ", "zn", "zupd"}          # names the c2gal_wf extension generates
 GTYPE = {"Z": "Z", "B": "bool", "L": "list Z", "P": "cptr"}
 
 
@@ -194,18 +202,13 @@ class Tr:
          known_tests   True: facts about decided tests are kept along a duplicated path (see the module docstring)
          partial_init  "dup": see the module docstring
          lock "object_path": (path, enum constant)      the lock object is `&<path>[<constant>]` (e.g. &sh->lu_locks[SCHED_LOCK])
-       Added for ParallelInit / pxgstrf_relax_snode (details at the methods below for_stmt: stmt_ext, assigned_ext, may_return_ext):
-         general_for     True: a `for` loop that is not of the fold shape (no increment, break / while inside, the body assigns the
-                         loop variable or its bound) is `init; while (cond) { body; inc; }`, a Fixpoint over fuel
-         chained_assign  True: `a = b = e;` is `b = e; a = b;`
-         alloc           {callee: ("count" | "bytes", fill term)}   `p = [cast] callee(arg);` gives every declared array under p
-                         the value `repeat <fill> (Z.to_nat <len>)` (bytes: arg must be `len * sizeof(element type)`)
-         ignore_alloc    set of object paths whose allocation is dropped (opaque objects)
-         ignore_mem      set of array paths (never declared in "mem", so never readable): stores / ++ / op= on them are dropped
-         abort_calls     set of callees that never return: the path ends with cfg["on_abort"](tr, env)
-         fun_calls       {callee: spec}  calls of C functions that were translated into Gallina functions of their own:
-                         `let '(ret, w1, .., wk) := (gname <value args> <memory read> <extra>) in`; pointer arguments must denote
-                         exactly the object paths the callee was translated for"""
+         ptr_assign   True: `v = <pointer expression with a path>;` on a pointer local v, as a statement of the function's top level
+                      (tr.toplevel, see mark_toplevel) makes v a declared pointer (cfg "mem" must declare <path>[])
+         alloc_calls  {callee: gallina name of the junk function (Z -> Z)}   `v = callee(e);` (same placement rule): v[] is the fresh
+                      array cell  allocZ e junk ; cfg "mem" must declare "v[]" as a writable array
+         free_calls   set of callees: `callee(v)` on an allocated v forgets the cell (later accesses stop the translation)
+         drop_vars    set of scalar variables whose assignments are dropped (they must be pure); reads of them elsewhere fail
+         down_loops   True: descending for loops with a compound condition as bounded iterations (needs lift_loops)"""
 
     def __init__(self, cfg):
         self.cfg = cfg
@@ -619,7 +622,7 @@ class Tr:
 
     def assigned(self, n, acc):
         k = n.get("kind")
-        if self.assigned_ext(n, acc):
+        if self.wf_dropped(n) is not None:       # c2gal_wf extension: an assignment to a dropped variable assigns nothing
             return
         if self.store_target(n):
             return
@@ -656,8 +659,6 @@ class Tr:
         """the statement cannot be translated as a value joined with the other branch: it may leave (return, goto, break,
         continue) or holds a while loop (whose fuel may run out)"""
         if n.get("kind") in ("ReturnStmt", "GotoStmt", "BreakStmt", "ContinueStmt", "WhileStmt"):
-            return True
-        if self.may_return_ext(n):
             return True
         return any(self.may_return(c) for c in n.get("inner", []) if c)
 
@@ -791,9 +792,9 @@ class Tr:
 
     def stmt(self, n, env, k):
         kind = n.get("kind")
-        ext = self.stmt_ext(n, env, k)          # cfg general_for / chained_assign / alloc / fun_calls / abort_calls / ignore_mem
-        if ext is not None:
-            return ext
+        r = self.wf_stmt(n, env, k)          # c2gal_wf extension (None: not one of its forms)
+        if r is not None:
+            return r
         if kind == "CompoundStmt":
             return self.seq(n.get("inner", []), env, k)
         if kind == "NullStmt":
@@ -1130,334 +1131,184 @@ class Tr:
                 self.pat(news), ivn, self.pat(stn), bodyt, a, b, init, k(env2))
 
 
-    # ------------------------------------------------------------------ extensions added for ParallelInit / pxgstrf_relax_snode
-    # (all behind new cfg keys; without them the three hooks stmt_ext / assigned_ext / may_return_ext do nothing)
-    #   general_for     True: a `for` loop that is not of the fold shape `for (i = a; i < b; ++i)` (no increment, the body assigns
-    #                   the loop variable or something the bound mentions, break / while / a nested general loop inside) becomes
-    #                   `init; while (cond) { body; inc; }`, i.e. a fuel Fixpoint like every while loop (continue is refused when
-    #                   there is an increment).  Nested while loops take the fuel that is left to the enclosing loop.
-    #   chained_assign  True: `a = b = e;` is `b = e; a = b;` (b a side-effect free lvalue)
-    #   alloc           {callee: (unit, fill)}  `p = [cast] callee(arg);` gives every declared memory array under p (p a pointer local:
-    #                   "p[]", "p[].f"; p an object path: "<path>[]", "<path>[].f") the fresh value `repeat <fill> (Z.to_nat <len>)`;
-    #                   unit "count": len = arg; unit "bytes": arg must be `len * sizeof(T)` with T the element type of p.
-    #                   fill is a Gallina term ("0" for calloc; e.g. a parameter name for the indeterminate contents of malloc)
-    #   ignore_alloc    set of object paths whose allocation statement is dropped (opaque objects: the mutex array)
-    #   ignore_mem      set of array paths (statistics): statements `X[i] = e;` `X[i] op= e;` `X[i]++;` on them are dropped when
-    #                   index and value are side-effect free; the path must not be declared in "mem", so every read of it stops
-    #                   the translation
-    #   abort_calls     set of callees that never return: the path ends with cfg["on_abort"](tr, env)
-    #   fun_calls       {callee: {"gname": Gallina function translated separately, "args": [("val",) | ("ptr", path)] per parameter,
-    #                             "reads": [paths], "writes": [paths], "ret": bool, "extra": [terms], "option": bool}}
-    #                   a call (statement `f(..);`, `v = f(..);`, `if ((v = f(..)))`, `if (f(..))`) becomes
-    #                   `let '(ret, w1, .., wk) := (gname <val args> <reads> <extra>) in`; a pointer argument must denote exactly the
-    #                   object path the callee was translated for.  "option": the callee may run out of fuel (it gets cfg fuel).
-    def call_of(self, n):
-        """(callee name, call node) when n is, under casts and parentheses, a call; else (None, None)"""
-        n = strip(n)
-        if n.get("kind") != "CallExpr":
-            return None, None
-        return strip(n["inner"][0]).get("referencedDecl", {}).get("name"), n
+    # ------------------------------------------------------------------ c2gal_wf extension (countnz / fixupL of util.c)
+    def mark_toplevel(self, body):
+        """remember the statements of the function body's top level (ptr_assign / alloc_calls are only understood there: every path
+        that reaches a later statement has passed through them)"""
+        self.toplevel = {c["id"] for c in body.get("inner", []) if c}
+        self.wf_alloc = {}          # allocated pointer -> its memory path
 
-    def is_plain_assign(self, n):
-        return n.get("kind") == "BinaryOperator" and n.get("opcode") == "="
-
-    def dropped_mem_stmt(self, n):
-        ig = self.cfg.get("ignore_mem")
-        if not ig:
-            return False
-        kind = n.get("kind")
-        if self.is_plain_assign(n) or kind == "CompoundAssignOperator":
-            lv, others = n["inner"][0], [n["inner"][1]]
-        elif kind == "UnaryOperator" and n.get("opcode") in ("++", "--"):
-            lv, others = n["inner"][0], []
-        else:
-            return False
-        l = strip_lv(lv)
-        if l.get("kind") not in ("ArraySubscriptExpr", "MemberExpr"):
-            return False
-        try:
-            p = self.path(l)
-        except Unsupported:
-            return False
-        if p is None or p[0] not in ig:
-            return False
-        if (p[1] is not None and not self.pure(p[1])) or any(not self.pure(o) for o in others):
-            raise Unsupported("dropped statement on '%s' has a side effect in its index or value" % p[0])
-        return True
-
-    def for_is_general(self, n):
-        """syntactic: the for loop does not have the fold shape for_stmt translates"""
-        init, _cv, cond, inc, body = (n["inner"] + [None] * 5)[:5]
-        if not init or not cond or not inc or not body:
-            return True
-        if self.may_return(body):
-            return True
-        if not self.is_plain_assign(init):
-            return True
-        try:
-            iv = self.lhs_name(init["inner"][0])
-            cnd = strip(cond)
-            if cnd.get("kind") != "BinaryOperator" or cnd.get("opcode") not in ("<", "<=") or self.lhs_name(cnd["inner"][0]) != iv:
-                return True
-            ic = strip(inc)
-            if not (ic.get("kind") == "UnaryOperator" and ic.get("opcode") == "++" and self.lhs_name(ic["inner"][0]) == iv):
-                return True
-            vs = []
-            self.assigned(body, vs)
-            if iv in vs or any(self.occurrences(cnd["inner"][1], v) for v in vs):
-                return True
-        except Unsupported:
-            return True
-        return False
-
-    def for_general(self, n, env, k):
-        init, _cv, cond, inc, body = (n["inner"] + [None] * 5)[:5]
-        if _cv:
-            raise Unsupported("for loop with a condition variable")
-        if inc and mentions(body, lambda x: x.get("kind") == "ContinueStmt"):
-            raise Unsupported("continue inside a for loop that is translated as a while loop")
-        if cond is None:
-            cond = {"kind": "IntegerLiteral", "value": "1"}
-        w = {"kind": "WhileStmt", "inner": [cond, {"kind": "CompoundStmt", "inner": [x for x in (body, inc) if x]}]}
-        if init:
-            return self.stmt(init, env, lambda e: self.while_stmt(w, e, k))
-        return self.while_stmt(w, env, k)
-
-    def alloc_target(self, lhs, register):
-        """the memory keys (cfg mem) that an allocation assigned to the pointer lvalue lhs creates; [] for an ignored object"""
-        l = strip_lv(lhs)
-        if l.get("kind") == "DeclRefExpr" and l["referencedDecl"]["name"] not in self.ptr or \
-                (l.get("kind") == "DeclRefExpr" and self.ptr.get(l["referencedDecl"]["name"]) == l["referencedDecl"]["name"]):
-            root = l["referencedDecl"]["name"]
-            if not l.get("type", {}).get("qualType", "").rstrip().endswith("*"):
-                raise Unsupported("allocation assigned to '%s', which is not a pointer" % root)
-            if register:
-                if self.loops:
-                    raise Unsupported("allocation of the pointer local '%s' inside a loop" % root)
-                self.ptr[root] = root
-        else:
-            p = self.path(l)
-            if p is None or p[1] is not None:
-                raise Unsupported("allocation assigned to something that is not a pointer local or an object path")
-            root = p[0]
-        keys = [key for key in self.cfg.get("mem", {}) if key == root + "[]" or key.startswith(root + "[].")]
-        if not keys:
-            if root in self.cfg.get("ignore_alloc", ()):
-                return []
-            raise Unsupported("allocation of undeclared memory '%s'" % root)
-        for key in keys:
-            if self.cfg["mem"][key][1] != "array" or self.cfg["mem"][key][2]:
-                raise Unsupported("allocation of '%s', which is declared read-only or as a cell" % key)
-        return keys
-
-    def alloc_stmt(self, lhs, cname, call, env, k, rhs=None):
-        unit, fill = self.cfg["alloc"][cname]
-        if not self.alloc_target(lhs, False):
-            return k(env)          # cfg ignore_alloc: an opaque object
-        args = call["inner"][1:]
-        if len(args) != 1:
-            raise Unsupported("%s with %d arguments" % (cname, len(args)))
-        cnt = args[0]
-        if unit == "bytes":
-            a = strip(cnt)
-            if a.get("kind") != "BinaryOperator" or a.get("opcode") != "*":
-                raise Unsupported("size of %s is not `count * sizeof(T)`" % cname)
-            x, y = strip(a["inner"][0]), strip(a["inner"][1])
-            issz = lambda z: z.get("kind") == "UnaryExprOrTypeTraitExpr" and z.get("name") == "sizeof"
-            if issz(y) and not issz(x):
-                cnt, sz = a["inner"][0], y
-            elif issz(x) and not issz(y):
-                cnt, sz = a["inner"][1], x
-            else:
-                raise Unsupported("size of %s is not `count * sizeof(T)`" % cname)
-            clean = lambda t: " ".join(w for w in t.replace("*", " * ").split() if w not in ("const", "volatile", "register"))
-            elt = clean(strip_lv(lhs).get("type", {}).get("qualType", ""))
-            szt = sz.get("argType", {}).get("qualType")
-            if szt is None and sz.get("inner"):
-                szt = sz["inner"][0].get("type", {}).get("qualType")
-            # the element type: the pointee of the assigned pointer, or of the explicit cast `(T *) malloc(..)` (typedef names)
-            cands = [elt]
-            if rhs is not None and strip_lv(rhs).get("kind") == "CStyleCastExpr":
-                cands.append(clean(strip_lv(rhs).get("type", {}).get("qualType", "")))
-            if szt is None or not any(c_.endswith("*") and clean(szt) == c_[:-1].strip() for c_ in cands):
-                raise Unsupported("%s: sizeof(%s) does not match the element type of '%s'" % (cname, szt, elt))
-        if not self.pure(cnt):
-            raise Unsupported("allocation size with a side effect")
-        lent = self.toZ(self.ex(cnt, env))
-        keys = self.alloc_target(lhs, True)
-        env2 = dict(env)
-        lines = []
-        for key in keys:
-            self.guard(key, env, "write")
-            nm = self.fresh(self.short(key), "L")
-            lines.append("let %s := (repeat %s (Z.to_nat %s)) in" % (nm, fill, lent))
-            env2[key] = (nm, "L")
-        return self.with_lets(lines, k(env2))
-
-    def fun_call(self, cname, call, env, kont):
-        """kont(env after the call, (value term, 'Z') or None)"""
-        sp = self.cfg["fun_calls"][cname]
-        args = call["inner"][1:]
-        if len(args) != len(sp["args"]):
-            raise Unsupported("%s called with %d arguments" % (cname, len(args)))
-        vals = []
-        for a, s_ in zip(args, sp["args"]):
-            if s_[0] == "val":
-                if not self.pure(a):
-                    raise Unsupported("argument of %s with a side effect" % cname)
-                vals.append(self.toZ(self.ex(a, env)))
-            else:
-                p = self.path(a)
-                if p is None or p[1] is not None or p[0] != s_[1]:
-                    raise Unsupported("a pointer argument of %s is not the object '%s' it was translated for" % (cname, s_[1]))
-        reads = [self.var(p, env)[0] for p in sp.get("reads", [])]
-        env2 = dict(env)
-        names = []
-        ret = None
-        if sp.get("ret"):
-            ret = self.fresh(cname + "_ret")
-            names.append(ret)
-        for p in sp.get("writes", []):
-            self.guard(p, env, "write")
-            m = self.cfg["mem"][p]
-            if m[2]:
-                raise Unsupported("%s writes the read-only memory '%s'" % (cname, p))
-            ty = "L" if m[1] == "array" else "Z"
-            nm = self.fresh(m[0], ty)
-            env2[p] = (nm, ty)
-            names.append(nm)
-        env2.pop("#facts", None)
-        extra = list(sp.get("extra", []))
-        term = "(%s)" % " ".join([sp["gname"]] + vals + reads + extra + ([self.cfg["fuel"]] if sp.get("option") else []))
-        rest = kont(env2, (ret, "Z") if ret else None)
-        if not names:
-            return rest
-        if sp.get("option"):
-            return "match %s with\n | Some %s => %s\n | None => %s\n end" % (term, self.tup(names), rest, self.cfg["on_fuel"](self, env))
-        return "let %s := %s in\n%s" % (self.pat(names), term, rest)
-
-    def cond_call(self, cond):
-        """an if-condition that is `f(..)` or `(v = f(..))` with f in cfg fun_calls: (lvalue node or None, callee, call node)"""
-        c0 = strip_lv(cond)
-        if self.is_plain_assign(c0):
-            cname, call = self.call_of(c0["inner"][1])
-            if cname in self.cfg.get("fun_calls", {}):
-                return c0["inner"][0], cname, call
+    def wf_dropped(self, n):
+        """the dropped variable (cfg drop_vars) a statement assigns, or None"""
+        dv = self.cfg.get("drop_vars")
+        if not dv:
             return None
-        cname, call = self.call_of(c0) if c0.get("kind") == "CallExpr" else (None, None)
-        if cname in self.cfg.get("fun_calls", {}):
-            return None, cname, call
+        k = n.get("kind")
+        if (k == "BinaryOperator" and n.get("opcode") == "=") or k == "CompoundAssignOperator" or is_incdec(n):
+            l = strip(n["inner"][0])
+            if l.get("kind") == "DeclRefExpr" and l["referencedDecl"]["name"] in dv:
+                return l["referencedDecl"]["name"]
+        if k == "DeclStmt":
+            ds = [d for d in n.get("inner", []) if d.get("kind") == "VarDecl" and d.get("inner")]
+            hit = [d["name"] for d in ds if d["name"] in dv]
+            if hit:
+                if len(hit) != len(ds):
+                    raise Unsupported("a declaration initialises the dropped variable '%s' together with others" % hit[0])
+                return hit[0]
         return None
 
-    def stmt_ext(self, n, env, k):
+    def wf_place(self, n, what):
+        # (a statement of the top level is in no loop; self.loops cannot be asked: the rest of a path is translated inside for_stmt)
+        if n.get("id") not in getattr(self, "toplevel", ()):
+            raise Unsupported("%s that is not a statement of the function's top level" % what)
+
+    def wf_stmt(self, n, env, k):
         kind = n.get("kind")
-        if self.dropped_mem_stmt(n):
+        v = self.wf_dropped(n)
+        if v is not None:
+            parts = [d["inner"][0] for d in n.get("inner", []) if d.get("inner")] if kind == "DeclStmt" else \
+                    (n["inner"][1:] if kind != "UnaryOperator" else [])
+            if not all(self.pure(x) for x in parts):
+                raise Unsupported("dropped assignment to '%s' has a side effect" % v)
+            if v in env:
+                raise Unsupported("the dropped variable '%s' has a value" % v)
             return k(env)
-        if kind == "ForStmt" and self.cfg.get("general_for") and self.for_is_general(n):
-            return self.for_general(n, env, k)
-        if self.is_plain_assign(n):
-            r0 = strip_lv(n["inner"][1])
-            if self.cfg.get("chained_assign") and self.is_plain_assign(r0):
-                lv2 = strip_lv(r0["inner"][0])
-                if not self.pure(lv2):
-                    raise Unsupported("chained assignment through an lvalue with a side effect")
-                outer = dict(n)
-                outer["inner"] = [n["inner"][0], lv2]
-                return self.stmt(r0, env, lambda e: self.stmt(outer, e, k))
-            cname, call = self.call_of(n["inner"][1])
-            if cname is not None and cname in self.cfg.get("alloc", {}):
-                return self.alloc_stmt(n["inner"][0], cname, call, env, k, n["inner"][1])
-            if cname is not None and cname in self.cfg.get("fun_calls", {}):
-                if not self.cfg["fun_calls"][cname].get("ret"):
-                    raise Unsupported("the value of %s is used but it was translated without one" % cname)
-                return self.fun_call(cname, call, env, lambda e, val: self.store(strip_lv(n["inner"][0]), val, e, k))
-        if kind == "CallExpr":
-            cname, call = self.call_of(n)
-            if cname is not None and cname in self.cfg.get("abort_calls", ()):
-                return self.cfg["on_abort"](self, env)
-            if cname is not None and cname in self.cfg.get("fun_calls", {}):
-                return self.fun_call(cname, call, env, lambda e, val: k(e))
-        if kind == "IfStmt" and self.cfg.get("fun_calls"):
-            cc = self.cond_call(n["inner"][0])
-            if cc:
-                lv, cname, call = cc
-                if not self.cfg["fun_calls"][cname].get("ret"):
-                    raise Unsupported("the value of %s is used but it was translated without one" % cname)
-                if lv is None:
-                    return self.fun_call(cname, call, env, lambda e, val: self.if_stmt(n, self.toB(val), False, e, k))
-                return self.fun_call(cname, call, env, lambda e, val: self.store(
-                    strip_lv(lv), val, e, lambda e2: self.if_stmt(n, self.toB(self.ex(strip_lv(lv), e2)), False, e2, k)))
+        if kind == "BinaryOperator" and n.get("opcode") == "=" and (self.cfg.get("ptr_assign") or self.cfg.get("alloc_calls")):
+            l = strip_lv(n["inner"][0])
+            if l.get("kind") == "DeclRefExpr" and l.get("type", {}).get("qualType", "").rstrip().endswith("*") \
+                    and l["referencedDecl"].get("kind") == "VarDecl":
+                v = l["referencedDecl"]["name"]
+                r = strip(n["inner"][1])
+                cal = strip(r["inner"][0]).get("referencedDecl", {}).get("name") if r.get("kind") == "CallExpr" else None
+                if cal is not None and cal in self.cfg.get("alloc_calls", {}):
+                    self.wf_place(n, "allocation `%s = %s(..)`" % (v, cal))
+                    key = v + "[]"
+                    m = self.cfg.get("mem", {}).get(key)
+                    if m is None or m[1] != "array" or m[2]:
+                        raise Unsupported("allocated array '%s' is not declared as writable memory" % key)
+                    if v in self.ptr or key in env:
+                        raise Unsupported("pointer '%s' is given a value twice" % v)
+                    if len(r["inner"]) != 2:
+                        raise Unsupported("%s with %d arguments" % (cal, len(r["inner"]) - 1))
+                    size = self.toZ(self.ex(r["inner"][1], env))
+                    self.ptr[v] = v
+                    self.wf_alloc[v] = key
+                    nm = self.fresh(m[0], "L")
+                    env2 = dict(env)
+                    env2[key] = (nm, "L")
+                    return "let %s := (allocZ %s %s) in\n%s" % (nm, size, self.cfg["alloc_calls"][cal], k(env2))
+                if self.cfg.get("ptr_assign"):
+                    p = self.path(n["inner"][1])
+                    if p is None or p[1] is not None or (p[0] + "[]") not in self.cfg.get("mem", {}):
+                        raise Unsupported("pointer assignment `%s = ..` whose right-hand side is not declared array memory" % v)
+                    self.wf_place(n, "pointer assignment `%s = ..`" % v)
+                    if self.ptr.get(v, p[0]) != p[0] or v in env:
+                        raise Unsupported("pointer '%s' is given two different values" % v)
+                    self.ptr[v] = p[0]
+                    return k(env)
+        if kind == "CallExpr" and self.cfg.get("free_calls"):
+            cal = strip(n["inner"][0]).get("referencedDecl", {}).get("name")
+            if cal in self.cfg["free_calls"]:
+                a = strip(n["inner"][1]) if len(n["inner"]) == 2 else {}
+                v = a.get("referencedDecl", {}).get("name") if a.get("kind") == "DeclRefExpr" else None
+                if v not in getattr(self, "wf_alloc", {}) or self.wf_alloc[v] not in env:
+                    raise Unsupported("%s of something that is not a live allocated array" % cal)
+                self.wf_place(n, "%s(%s)" % (cal, v))
+                env2 = dict(env)
+                del env2[self.wf_alloc[v]]
+                return k(env2)
+        if kind == "ForStmt" and self.cfg.get("down_loops"):
+            parts = self.wf_down_parts(n)
+            if parts:
+                self.loops.append(None)
+                try:
+                    return self.wf_down_loop(n, parts, env, k)
+                finally:
+                    self.loops.pop()
         return None
 
-    def assigned_ext(self, n, acc):
-        """True when the statement has been accounted for (acc extended as needed)"""
-        kind = n.get("kind")
-        add = lambda v: acc.append(v) if v not in acc else None
-        if self.dropped_mem_stmt(n):
-            return True
-        if self.is_plain_assign(n):
-            r0 = strip_lv(n["inner"][1])
-            if self.cfg.get("chained_assign") and self.is_plain_assign(r0):
-                self.assigned(r0, acc)
-                v = self.lhs_name(n["inner"][0])
-                if v is None:
-                    raise Unsupported("assignment to something that is not a scalar variable or a declared cell")
-                add(v)
-                return True
-            cname, call = self.call_of(n["inner"][1])
-            if cname is not None and cname in self.cfg.get("alloc", {}):
-                for key in self.alloc_target(n["inner"][0], False):
-                    add(key)
-                return True
-            if cname is not None and cname in self.cfg.get("fun_calls", {}):
-                for p in self.cfg["fun_calls"][cname].get("writes", []):
-                    add(p)
-                v = self.lhs_name(n["inner"][0])
-                if v is None:
-                    raise Unsupported("assignment to something that is not a scalar variable or a declared cell")
-                add(v)
-                return True
-        if kind == "CallExpr":
-            cname, call = self.call_of(n)
-            if cname is not None and cname in self.cfg.get("abort_calls", ()):
-                return True
-            if cname is not None and cname in self.cfg.get("fun_calls", {}):
-                for p in self.cfg["fun_calls"][cname].get("writes", []):
-                    add(p)
-                return True
-        if kind == "IfStmt" and self.cfg.get("fun_calls"):
-            cc = self.cond_call(n["inner"][0])
-            if cc:
-                for p in self.cfg["fun_calls"][cc[1]].get("writes", []):
-                    add(p)
-                if cc[0] is not None:
-                    v = self.lhs_name(cc[0])
-                    if v is None:
-                        raise Unsupported("assignment to something that is not a scalar variable or a declared cell")
-                    add(v)
-                for c in n["inner"][1:]:
-                    if c:
-                        self.assigned(c, acc)
-                return True
-        return False
+    def wf_down_parts(self, n):
+        """(loop variable, comparison with the lower bound, bound node) of `for (j = a; j >= b [&& c]; j--)`, or None"""
+        init, _cv, cond, inc, body = (n["inner"] + [None] * 5)[:5]
+        if not init or not cond or not inc or init.get("kind") != "BinaryOperator" or init.get("opcode") != "=":
+            return None
+        li = strip(init["inner"][0])
+        if li.get("kind") != "DeclRefExpr":
+            return None
+        iv = li["referencedDecl"]["name"]
+        ic = strip(inc)
+        if not (ic.get("kind") == "UnaryOperator" and ic.get("opcode") == "--" and strip(ic["inner"][0]).get("kind") == "DeclRefExpr"
+                and strip(ic["inner"][0])["referencedDecl"]["name"] == iv):
+            return None
+        c = strip(cond)
+        first = strip(c["inner"][0]) if c.get("kind") == "BinaryOperator" and c.get("opcode") == "&&" else c
+        if first.get("kind") != "BinaryOperator":
+            return None
+        a, b = strip(first["inner"][0]), strip(first["inner"][1])
+        isv = lambda x: x.get("kind") == "DeclRefExpr" and x["referencedDecl"]["name"] == iv
+        if first.get("opcode") in (">=", ">") and isv(a):
+            return (iv, first["opcode"], first["inner"][1])
+        if first.get("opcode") in ("<=", "<") and isv(b):
+            return (iv, {"<=": ">=", "<": ">"}[first["opcode"]], first["inner"][0])
+        return None
 
-    def may_return_ext(self, n):
-        kind = n.get("kind")
-        if kind == "CallExpr":
-            cname, call = self.call_of(n)
-            if cname is not None and cname in self.cfg.get("abort_calls", ()):
-                return True
-            if cname is not None and self.cfg.get("fun_calls", {}).get(cname, {}).get("option"):
-                return True
-        if kind == "ForStmt" and self.cfg.get("general_for"):
-            init, _cv, cond, inc, body = (n["inner"] + [None] * 5)[:5]
-            if not init or not cond or not inc or not body:
-                return True
-            # (the other reasons for a general loop are found by the recursion: break / while inside; a body that assigns
-            #  the loop variable or its bound is decided by for_is_general)
-            if not any(self.may_return(c) for c in n.get("inner", []) if c) and self.for_is_general(n):
-                return True
-        return False
+    def wf_down_loop(self, n, parts, env, k):
+        """for (j = a; j >= b && c; j--) body   ==>   (see the module docstring)
+             Definition <f>_down<k> <free names> (st_ : T) (it_ : Z) : T :=
+               let '(j, ..) := st_ in if <condition> then <body> let j' := j - 1 in (j', ..) else (j, ..)
+           at the loop:  let j0 := a in let '(j1, ..) := fold_left (<f>_down<k> <free names>) (zrange b (j0 + 1)) (j0, ..) in <rest>"""
+        iv, op, bnd = parts
+        init, _cv, cond, inc, body = (n["inner"] + [None] * 5)[:5]
+        if not self.cfg.get("lift_loops"):
+            raise Unsupported("descending for loop (needs cfg lift_loops)")
+        if self.may_return(body):
+            raise Unsupported("return, goto, break, continue or a while loop inside a descending for loop")
+        if not (self.pure(init["inner"][1]) and self.pure(cond)):
+            raise Unsupported("side effect in the bounds of a descending for loop")
+        vs = []
+        self.assigned(body, vs)
+        if iv in vs:
+            raise Unsupported("descending for-loop body assigns the loop variable")
+        loc = [v for v in vs if v not in env]
+        if loc and not self.cfg.get("local_temps"):
+            raise Unsupported("variable '%s' is assigned in a loop body without a value before the loop" % loc[0])
+        # the lower bound is the same in every round: it mentions neither the loop variable nor anything the body assigns
+        for v in [iv] + vs:
+            if self.occurrences(bnd, v):
+                raise Unsupported("the lower bound of a descending for loop mentions '%s', which the loop changes" % v)
+        if not self.pure(bnd):
+            raise Unsupported("side effect in the lower bound of a descending for loop")
+        lo = self.toZ(self.ex(bnd, env))
+        if op == ">":
+            lo = "(%s + 1)" % lo
+        a = self.toZ(self.ex(init["inner"][1], env))
+        a0 = self.fresh(iv)
+        env = dict(env)
+        env[iv] = (a0, "Z")
+        vs = self.order([iv] + [v for v in vs if v in env and v != iv])
+        self.stores_in(body, self.dirty)
+        n0 = self.n
+        stn = [self.fresh(self.short(v), env[v][1]) for v in vs]
+        envb = dict(env)
+        for v, nm in zip(vs, stn):
+            envb[v] = (nm, env[v][1])
+        envb.pop("#facts", None)
+        fin = lambda e: self.tup([self.conv(e[v], env[v][1]) for v in vs])
+        ct = self.toB(self.ex(cond, envb))
+        step = self.stmt(body, envb, lambda e: self.assign(iv, ("(%s - 1)" % self.toZ(e[iv]), "Z"), e, fin))
+        bodyt = "(if %s\n then %s\n else %s)" % (ct, step, fin(envb))
+        frees = self.frees_of(bodyt, set(stn) | {"it_"}, env, n0)
+        sty = " * ".join(GTYPE[env[v][1]] for v in vs)
+        loc_ = self.localise(n0, frees)
+        lname = self.add_lifted("down", "Definition @NAME@ %s (st_ : %s) (it_ : Z) : %s :=\n  let %s := st_ in\n    %s.\n" % (
+            " ".join("(%s : %s)" % (loc_(f[0]), f[1]) for f in frees), sty, sty, loc_(self.pat(stn)), loc_(bodyt)),
+            [v for v in vs], [f[0] for f in frees])
+        news = [self.fresh(self.short(v), env[v][1]) for v in vs]
+        env2 = dict(env)
+        for v, nm in zip(vs, news):
+            env2[v] = (nm, env[v][1])
+        return "let %s := %s in\nlet %s :=\n  fold_left (%s)\n    (zrange %s (%s + 1)) %s in\n%s" % (
+            a0, a, self.pat(news), " ".join([lname] + [f[0] for f in frees]), lo, a0, self.tup([env[v][0] for v in vs]), k(env2))
 
 
 def translate_slice(fn_ast, cfg, start=None, stop=None, final=None):
